@@ -62,7 +62,7 @@ let world = ref { w_mm = []; w_names = [] }
 let sworld = ref { sw_bus = []; sw_names = [] }
 let limit = ref (n_of_int 512)
 
-let reply_s = function RepOk -> "ok" | RepLimits -> "limits" | RepInvalid -> "invalid" | RepDenied -> "denied" | RepOkThenNotFound -> "oknotfound"
+let reply_s = function RepOk -> "ok" | RepLimits -> "limits" | RepInvalid -> "invalid" | RepDenied -> "denied" | RepNotFound -> "notfound" | RepOkThenNotFound -> "oknotfound"
 let sreply_s = function SRepOk -> "ok" | SRepLimits -> "limits" | SRepInvalid -> "invalid" | SRepDenied -> "denied" | SRepNotFound -> "notfound"
 
 let s_sender = bytes_of_hex "73656e646572" and s_destination = bytes_of_hex "64657374696e6174696f6e"
